@@ -354,6 +354,17 @@ func c13(c *Ctx) {
 				c.Res.Inconcl("listener did not deliver the pushed event")
 			} else if got := adapter.PDateTime(lastStatus.SystemDateTime).String(); got != want {
 				viol("C13:status:listen", fmt.Sprintf("Listen: system date+time transmitted as %s is delivered as %s", want, got), map[string]any{"civil": want, "got": got, "mode": tag})
+			} else if st != nil && err == nil {
+				// ... combined the same way: the same 64 bytes give the same values (instants, not just printed forms) from GetStatus and from the listener
+				a, b := time.Time(st.SystemDateTime), time.Time(lastStatus.SystemDateTime)
+				ta, tb := time.Time(st.Event.Timestamp), time.Time(lastStatus.Event.Timestamp)
+				ja, _ := json.Marshal(st.SystemDateTime)
+				jb, _ := json.Marshal(lastStatus.SystemDateTime)
+				if !a.Equal(b) || !ta.Equal(tb) || string(ja) != string(jb) {
+					viol("C13:status:listen-vs-get-status", fmt.Sprintf("the same datagram (system date+time %s) gives %v / %v (JSON %s) from GetStatus and %v / %v (JSON %s) from the listener", want, a, ta, ja, b, tb, jb), map[string]any{"civil": want, "mode": tag})
+				} else if msg := notLocal("SystemDateTime", lastStatus.SystemDateTime); msg != "" {
+					viol("C13:status:instant", "Listen: "+msg, map[string]any{"civil": want, "mode": tag})
+				}
 			}
 		}
 	}
@@ -475,6 +486,27 @@ func c13(c *Ctx) {
 			checkStatus(civilOf(st.Unix(), loc), "random")
 		}
 	}
+	// the controller's clock at midnight, on the first day of a year / of the century, and both
+	for i := 0; i < c.N(60, 600); i++ {
+		y := 2000 + r.Pick(69)
+		cv := civil{y: y, m: 1 + r.Pick(12), d: 1 + r.Pick(28), h: r.Pick(24), mi: r.Pick(60), s: r.Pick(60)}
+		switch i % 6 {
+		case 0:
+			cv.h, cv.mi, cv.s = 0, 0, 0
+		case 1:
+			cv.y, cv.m, cv.d = 2001, 1, 1
+		case 2:
+			cv.y, cv.m, cv.d, cv.h, cv.mi, cv.s = []int{2000, 2001, 2010, 2068}[r.Pick(4)], 1, 1, 0, 0, 0
+		case 3:
+			cv.m, cv.d = 1, 1
+		case 4:
+			cv.h, cv.mi, cv.s = []int{0, 0, 12, 23}[r.Pick(4)], []int{0, 59}[r.Pick(2)], []int{0, 1, 59}[r.Pick(3)]
+		default:
+			cv.m, cv.d, cv.h, cv.mi, cv.s = 12, 31, 23, 59, 59
+		}
+		checkStatus(cv, "special")
+		checkDateTime(cv, "special")
+	}
 	// every day of one DST-heavy year, plus the current extrapolated rule far in the future
 	for _, y := range []int{2024, 2011, 1994, 1 + r.Pick(9999), 7000 + r.Pick(2999)} {
 		for m := 1; m <= 12; m++ {
@@ -542,20 +574,42 @@ func c13(c *Ctx) {
 
 	// ---- state left behind by the previous call: every ordered pair of days of a leap year and of a common year, the second day
 	// of each pair checked (the entry point varies with the pair)
+	type yday struct{ y, m, d int }
+	daySets := [][]yday{}
 	for _, y := range []int{2024, 2023 + 400*r.Pick(15)} {
-		type day struct{ m, d int }
-		days := []day{}
+		set := []yday{}
 		for m := 1; m <= 12; m++ {
 			for dd := 1; dd <= rm.DaysIn(y, m); dd++ {
-				if z.dayHasInstant(y, m, dd) {
-					days = append(days, day{m, dd})
-				}
+				set = append(set, yday{y, m, dd})
+			}
+		}
+		daySets = append(daySets, set)
+	}
+	// ... and the weeks on both sides of a new year (two pairs of years), and the same day of the month in different years and months
+	for _, y := range []int{2024, 1 + r.Pick(9997)} {
+		set := []yday{}
+		for dd := 8; dd <= 31; dd++ {
+			set = append(set, yday{y, 12, dd})
+		}
+		for dd := 1; dd <= 24; dd++ {
+			set = append(set, yday{y + 1, 1, dd})
+		}
+		for k := 0; k < 40; k++ {
+			set = append(set, yday{y - 3 + r.Pick(7), 1 + r.Pick(12), 1 + r.Pick(28)})
+		}
+		daySets = append(daySets, set)
+	}
+	for si, set := range daySets {
+		days := []yday{}
+		for _, x := range set {
+			if x.y >= 1 && x.y <= 9999 && !(x.y == 1 && x.m == 1 && x.d == 1) && z.dayHasInstant(x.y, x.m, x.d) {
+				days = append(days, x)
 			}
 		}
 		bad := 0
 		for i, a := range days {
-			if (i%c.NBatchOr1()) != c.Batch%c.NBatchOr1() && !c.Thorough() {
-				continue // quick: the pairs are partitioned over the zone batches by first day
+			if si < 2 && (i%c.NBatchOr1()) != c.Batch%c.NBatchOr1() && !c.Thorough() {
+				continue // quick: the pairs of the whole years are partitioned over the zone batches by first day
 			}
 			for j, b := range days {
 				if bad > 3 {
@@ -563,19 +617,19 @@ func c13(c *Ctx) {
 				}
 				var got types.Date
 				var err error
-				wantS := fmt.Sprintf("%04d-%02d-%02d", y, b.m, b.d)
+				wantS := fmt.Sprintf("%04d-%02d-%02d", b.y, b.m, b.d)
 				switch (i + j) % 3 {
 				case 0:
-					_ = types.ToDate(y, time.Month(a.m), a.d)
-					got = types.ToDate(y, time.Month(b.m), b.d)
+					_ = types.ToDate(a.y, time.Month(a.m), a.d)
+					got = types.ToDate(b.y, time.Month(b.m), b.d)
 				case 1:
-					types.ParseDate(fmt.Sprintf("%04d-%02d-%02d", y, a.m, a.d))
+					types.ParseDate(fmt.Sprintf("%04d-%02d-%02d", a.y, a.m, a.d))
 					got, err = types.ParseDate(wantS)
 				default:
 					var x types.Date
-					x.UnmarshalUT0311L0x(bcdDate(y, a.m, a.d))
+					x.UnmarshalUT0311L0x(bcdDate(a.y, a.m, a.d))
 					var v any
-					v, err = got.UnmarshalUT0311L0x(bcdDate(y, b.m, b.d))
+					v, err = got.UnmarshalUT0311L0x(bcdDate(b.y, b.m, b.d))
 					if dp, ok := v.(*types.Date); ok && dp != nil {
 						got = *dp
 					}
@@ -583,11 +637,11 @@ func c13(c *Ctx) {
 				c.Res.Eval(1)
 				if err != nil || got.String() != wantS {
 					bad++
-					viol("C13:date:after-another-date", fmt.Sprintf("date %s resolved right after %04d-%02d-%02d reports %s (err %v)", wantS, y, a.m, a.d, got.String(), err), map[string]any{"day": wantS, "previous": fmt.Sprintf("%04d-%02d-%02d", y, a.m, a.d), "entry": (i + j) % 3})
+					viol("C13:date:after-another-date", fmt.Sprintf("date %s resolved right after %04d-%02d-%02d reports %s (err %v)", wantS, a.y, a.m, a.d, got.String(), err), map[string]any{"day": wantS, "previous": fmt.Sprintf("%04d-%02d-%02d", a.y, a.m, a.d), "entry": (i + j) % 3})
 				}
 			}
 		}
-		c.Res.Count("ordered-day-pairs-years", 1)
+		c.Res.Count("ordered-day-pair-sets", 1)
 	}
 
 	// ---- concurrent use: several goroutines resolve different dates and date-times at the same time
